@@ -144,6 +144,7 @@ type impl struct {
 	ndb      db.NodeDB
 	tree     mkvs.Tree
 	overlays []mkvs.OverlayTree
+	spare    mkvs.OverlayTree // ocopy: Copy(nil) of the outermost overlay, kept aside
 	version  uint64
 	last     node.Root // root the tree is based on
 	prev     node.Root // root before the last commit
@@ -250,6 +251,13 @@ func (im *impl) handle(level int) mkvs.KeyValueTree {
 
 func (im *impl) top() mkvs.KeyValueTree { return im.handle(len(im.overlays)) }
 
+func (im *impl) dropSpare() {
+	if im.spare != nil {
+		im.spare.Close()
+		im.spare = nil
+	}
+}
+
 func iterate(t mkvs.KeyValueTree, seek []byte, n int) ([]kv, error) {
 	it := t.NewIterator(ctx)
 	defer it.Close()
@@ -311,7 +319,7 @@ func (im *impl) exec(w []string) string {
 		if atoi(w[1]) > len(im.overlays) {
 			return ""
 		}
-	case "ocommit", "odiscard":
+	case "ocommit", "odiscard", "ocopy", "oswap":
 		if len(im.overlays) == 0 {
 			return ""
 		}
@@ -347,7 +355,18 @@ func (im *impl) exec(w []string) string {
 		}
 		return op + " " + showItems(items)
 	case "onew":
+		im.dropSpare()
 		im.overlays = append(im.overlays, mkvs.NewOverlay(im.top()))
+		return op
+	case "ocopy":
+		im.dropSpare()
+		im.spare = im.overlays[len(im.overlays)-1].Copy(nil)
+		return op
+	case "oswap":
+		if im.spare == nil {
+			return ""
+		}
+		im.overlays[len(im.overlays)-1], im.spare = im.spare, im.overlays[len(im.overlays)-1]
 		return op
 	case "ocommit":
 		if _, err := im.overlays[len(im.overlays)-1].Commit(ctx); err != nil {
@@ -355,6 +374,7 @@ func (im *impl) exec(w []string) string {
 		}
 		return op
 	case "odiscard":
+		im.dropSpare()
 		im.overlays[len(im.overlays)-1].Close()
 		im.overlays = im.overlays[:len(im.overlays)-1]
 		return op
@@ -367,6 +387,7 @@ func (im *impl) exec(w []string) string {
 	case "reopen":
 		// reopen [nodeCap valCap] [db]: close the tree (and optionally the database) and open
 		// a new tree at the last committed root.
+		im.dropSpare()
 		for i := len(im.overlays) - 1; i >= 0; i-- {
 			im.overlays[i].Close()
 		}
@@ -450,6 +471,10 @@ func runImpl(ops []string) (lines []string, panicked string) {
 				}
 				cx = newCtxImpl(w[1])
 				line = "new"
+				return
+			}
+			if keyOps[w[0]] {
+				line = execKeyOp(w)
 				return
 			}
 			if isCtxOp(w[0]) {
@@ -677,6 +702,10 @@ func genCase(r *hlib.Rng, nops int, focus string, res *hlib.Result) []string {
 			case levels < 3 && (levels == 0 || r.Chance(1, 2)):
 				levels++
 				emit("onew", "onew")
+			case r.Chance(1, 4):
+				emit("ocopy", "ocopy")
+			case r.Chance(1, 3):
+				emit("oswap", "oswap")
 			case r.Chance(2, 3):
 				emit("ocommit", "ocommit")
 			default:
@@ -775,6 +804,9 @@ func withCaps(ops []string, mode string) []string {
 // caches are made unlimited is an instance of "eviction changes an answer" (C03) and is
 // attributed to the value cache if it persists with an unlimited node cache.
 func refine(ops []string, d string) string {
+	if strings.Contains(d, "key-") || strings.Contains(d, "`k") {
+		return "key-op-divergence"
+	}
 	if len(ops) > 0 && strings.HasPrefix(ops[0], "newctx") {
 		if strings.Contains(d, "PANIC") {
 			return "ctx-panic"
@@ -801,6 +833,7 @@ func main() {
 	specCases := flag.Int("spec", 100, "number of specification-on-implementation cases")
 	focus := flag.String("focus", "c03", "c02 | c03 | c13")
 	ctxCases := flag.Int("ctx", 0, "number of generated api.Context histories (C03)")
+	keyCases := flag.Int("keys", 0, "number of generated node.Key operation batches (C02)")
 	flag.IntVar(&minCap, "mincap", 1, "smallest node cache capacity generated")
 	flag.IntVar(&minValCap, "minvalcap", 1, "smallest value cache capacity (bytes) generated")
 	out := flag.String("out", "-", "result file")
@@ -951,6 +984,22 @@ func main() {
 			seen[key] = true
 			res.Distinct++
 		}
+	}
+	for i := 0; i < *keyCases && len(res.Failures) < 8; i++ {
+		cr := rng.Fork()
+		cs := cr.Seed()
+		ops := genKeyCase(cr, 20+cr.Intn(40), res)
+		d, lines := check(ops)
+		if i < 1 {
+			res.AddSample(lines)
+		}
+		if d != "" {
+			runOne(ops, cs, true)
+			continue
+		}
+		res.Cases++
+		res.Ops += len(lines)
+		res.Distinct++
 	}
 	runSpec(rng, *specCases, *focus, res)
 	res.Write(*out)
